@@ -136,6 +136,8 @@ def expected_lines(data, hdr, strf):
 def eval_case(case):
     impl.ensure(False)
     import io_drawer.dump as dump
+    if 'cli' in case:          # command-line cases are replayed by re-running the command-line chunk
+        return [v for v in _cli(ChunkResult()).violations if v['case'] == case]
     data = build(case)
     hdr, strf = paths()
     out = []
@@ -326,6 +328,40 @@ def _cli(res):
                                       % (t, pr.returncode), c)
                     else:
                         n_ok += 1
+        # -d / -s name the PTE table and the trace strings independently: either, both or neither may be given, and each
+        # region is decoded with the file named for it (the drawer type's own file where none is named)
+        from mc.ref import cheader
+        from io_drawer.drawer_type import DRAWER_TYPES
+        hdr = os.path.join(d, 'custom_pte.h')
+        cheader.write_header(hdr, [('0104****', 'custom table entry %d', [3]), ('********', 'custom catch all', [])], [('f0', 1), ('f1', 2)])
+        strs = os.path.join(d, 'custom_strings')
+        with open(strs, 'w') as f:
+            f.write('#FSP_TRACE_v2|||custom|||BUILD:verif\n32403714||custom trace string %x||z.cpp(1)\n')
+        for i, case in enumerate([{'ilog': 1, 'names': [3, 2], 'shapes': [1, 1]}, {'ilog': 3, 'names': [5, 0, 1], 'shapes': [1, 3, 1]}]):
+            data = build(case)
+            p = os.path.join(d, 'opt%d.txt' % i)
+            with open(p, 'w') as f:
+                f.write(''.join(l + '\n' for l in rhex.render(data, dump.HEX_DUMP_LINE_FORMATS[i % 2], True, True)))
+            for t in ('mex', 'nimitz'):
+                dt = [x for x in DRAWER_TYPES if x.name == t][0]
+                for use_d, use_s in itertools.product((False, True), repeat=2):
+                    for long_opts in (False, True):
+                        argv = [core.PY, '-m', 'io_drawer.dump', '-t', t, p]
+                        if use_d:
+                            argv += ['--header-file' if long_opts else '-d', hdr]
+                        if use_s:
+                            argv += ['--string-file' if long_opts else '-s', strs]
+                        env = dict(os.environ, PYTHONPATH=core.MODULES, PYTHONDONTWRITEBYTECODE='1')
+                        pr = subprocess.run(argv, capture_output=True, text=True, env=env, timeout=60)
+                        want = dump.parse_dump_data(memoryview(data), hdr if use_d else dt.get_header_file_path(),
+                                                    strs if use_s else dt.get_trace_string_file_path())
+                        c = dict(case, cli=t, header_file=use_d, string_file=use_s, long=long_opts)
+                        res.case(nontrivial_key=json.dumps(c), outcome='cli-files:%d' % pr.returncode)
+                        if pr.returncode != 0 or pr.stdout.split('\n')[:-1] != want:
+                            res.violation('C17:cli-files', 'io_drawer.dump -t %s%s%s does not decode each region with the file named for it'
+                                          % (t, ' -d <file>' if use_d else '', ' -s <file>' if use_s else ''), c)
+                        else:
+                            n_ok += 1
         # empty input gives no output, also through the command line: empty file, file without any dump line
         for name, text in (('empty.txt', ''), ('nolines.txt', '# only a comment\n\nnot a dump line\n'), ('blank.txt', '\n\n')):
             p = os.path.join(d, name)
